@@ -194,7 +194,7 @@ def random_inval(tier, seed, n=None):
                               "ans": [r.choice([first, slow304]), ans(ccp=1, ma=100, etag=2)]})
             steps.append({"op": "tick", "d": r.choice([0, 1, 1, 5])})
         out.append({"id": "rndinv/%06d" % i, "backend": "fs" if i % 10 == 0 else "mem", "opt": {}, "steps": steps, "grp": "", "spv": 0})
-    return out + inval_during_bg(tier)
+    return out + inval_during_bg(tier) + inval_dangling(tier) + inval_named(tier)
 
 
 def inval_during_bg(tier):
@@ -212,6 +212,31 @@ def inval_during_bg(tier):
                          {"op": "req", "rq": rq(u=0), "ans": [ans(ccp=1, ma=100, etag=3)]}]
                 out.append({"id": "invbg/%03d" % i, "backend": "fs" if i % 3 == 0 else "mem", "opt": {}, "steps": steps, "grp": "", "spv": 0})
                 i += 1
+    return out
+
+
+def inval_named(tier):
+    """an unsafe request whose answer names resources in Location / Content-Location: every combination of (target stored or
+    not) x (Location: none, stored, not stored, other origin) x (Content-Location: the same choices); every same-origin
+    resource that is named and stored has to go, whatever happens to the others"""
+    out = []
+    i = 0
+    stored_a = ans(ccp=1, ma=100, etag=1)
+    # URI classes: 0 = the target, 1 and 2 same origin (1 is stored, 2 never is), 10 other origin (stored)
+    for target_stored in (0, 1):
+        for loc in (0, 2, 3, 11):
+            for cloc in (0, 2, 3, 11):
+                for m in (("POST", "PUT") if tier == "quick" else ("POST", "PUT", "DELETE", "PATCH", "X-UNKNOWN")):
+                    so = lambda c: 1 if c in (2, 3) else 0
+                    steps = []
+                    for u in ([0] if target_stored else []) + [1, 10]:
+                        steps += [{"op": "req", "rq": rq(u=u), "ans": [stored_a]}, {"op": "tick", "d": 1}]
+                    a = ans(st=201, ccp=0, etag=0, loc1=loc, locso=so(loc), cloc1=cloc, clocso=so(cloc))
+                    steps += [{"op": "req", "rq": rq(u=0, m=m), "ans": [a]}, {"op": "tick", "d": 1}]
+                    for u in (0, 1, 10):
+                        steps += [{"op": "req", "rq": rq(u=u), "ans": [ans(ccp=1, ma=100, etag=2)]}]
+                    out.append({"id": "invnamed/%03d" % i, "backend": "fs" if i % 4 == 0 else "mem", "opt": {}, "steps": steps, "grp": "", "spv": 0})
+                    i += 1
     return out
 
 
@@ -300,6 +325,23 @@ def random_store(tier, seed, n=None):
                      {"op": "req", "rq": rq(), "ans": [ans(ccp=1, ma=60, etag=2)]}]
             out.append({"id": "rndstore/%05d" % i, "backend": "mem", "opt": {}, "steps": steps, "grp": "", "spv": 0})
             i += 1
+    # the client's own conditional request meets a stored response with or without validators, fresh or stale, and the origin
+    # answers 304 to it or sends a new representation; a later plain GET must get a full response
+    j = 0
+    for et, lm in ((0, NONE), (1, NONE), (0, 100), (1, 100)):
+        for stale in (0, 1):
+            for cond in ({"inm": 9}, {"inm": 1}, {"ims": 50}, {"ims": 100, "inm": 9}):
+                for how in ("304", "full"):
+                    for nocache in (0, 1):
+                        stored = ans(ccp=1, ma=5, etag=et, lm=lm)
+                        reply = ans(k="304", st=304, ccp=1, ma=50, etag=cond.get("inm", et) if cond.get("inm") else et) if how == "304" \
+                            else ans(ccp=1, ma=50, etag=2)
+                        steps = [{"op": "req", "rq": rq(), "ans": [stored]}, {"op": "tick", "d": 9 if stale else 2},
+                                 {"op": "req", "rq": rq(fl=["no-cache"] if nocache else [], **cond), "ans": [reply, ans(ccp=1, ma=50, etag=3)]},
+                                 {"op": "tick", "d": 1}, {"op": "req", "rq": rq(), "ans": [ans(ccp=1, ma=50, etag=4)]},
+                                 {"op": "tick", "d": 100}, {"op": "req", "rq": rq(), "ans": [ans(ccp=1, ma=50, etag=5)]}]
+                        out.append({"id": "clientcond/%03d" % j, "backend": "fs" if j % 5 == 0 else "mem", "opt": {}, "steps": steps, "grp": "", "spv": 0})
+                        j += 1
     # body stream failing at every byte (the default body is 19 bytes long), several framings
     for fr in (0, 1, 2):
         for cut in range(0, 22 if tier == "quick" else 40):
@@ -316,15 +358,29 @@ def random_bytes(tier, seed, n=None):
     n = n or (60 if tier == "quick" else 1500)
     out = []
     for i in range(n):
-        a = ans(ccp=1, ma=5, etag=1, fr=r.randrange(0, 6), body=r.choice([0, 1, 2, 3, 6, 6, 6, 4]), hop=r.randrange(0, 2), age=r.choice([NONE, 3]),
+        a = ans(ccp=1, ma=5, etag=1, fr=r.randrange(0, 6), body=r.choice([0, 1, 2, 3, 6, 6, 6, 4]), hop=r.randrange(0, 3), age=r.choice([NONE, 3]),
                 st=r.choice([200, 200, 203, 404, 410, 301]))
-        a304 = ans(k="304", st=304, ccp=1, ma=50, etag=1, upd=1, hop=r.randrange(0, 2))
+        a304 = ans(k="304", st=304, ccp=1, ma=50, etag=1, upd=1, hop=r.randrange(0, 3))
         if i % 2 == 1:
             a["swr"] = 60  # the stale serve happens under stale-while-revalidate; the caller reads the body late
         steps = [{"op": "req", "rq": rq(), "ans": [a]}, {"op": "tick", "d": 2}, {"op": "req", "rq": rq(), "ans": []},
                  {"op": "tick", "d": 9}, {"op": "req", "rq": rq(), "ans": [a304], "latebody": i % 2}, {"op": "tick", "d": 2},
                  {"op": "req", "rq": rq(), "ans": []}]
         out.append({"id": "rndbytes/%05d" % i, "backend": ["mem", "fs", "fsenc"][i % 3], "opt": {}, "steps": steps, "grp": "", "spv": 0})
+    # a caller that keeps responses and reads their bodies at the very end, while the same resource is stored again and again
+    # (new representations of the same and of other sizes, freshening 304s, other variants)
+    for i in range(max(6, n // 5)):
+        big = r.choice([4, 4, 6, 0])
+        a1 = ans(ccp=1, ma=5, etag=1, body=big, fr=r.choice([0, 0, 1]))
+        a2 = ans(ccp=1, ma=5, etag=2, body=big, fr=r.choice([0, 0, 1]))
+        a3 = ans(ccp=1, ma=5, etag=3, body=r.choice([big, 6]))
+        steps = [{"op": "req", "rq": rq(), "ans": [a1], "latebody": r.choice([0, 2])}, {"op": "tick", "d": 1},
+                 {"op": "req", "rq": rq(), "ans": [], "latebody": 2}, {"op": "tick", "d": 1},
+                 {"op": "req", "rq": rq(fl=["no-cache"]), "ans": [a2], "latebody": r.choice([0, 2])}, {"op": "tick", "d": 1},
+                 {"op": "req", "rq": rq(), "ans": [], "latebody": 2}, {"op": "tick", "d": 9},
+                 {"op": "req", "rq": rq(), "ans": [r.choice([a3, ans(k="304", st=304, ccp=1, ma=50, etag=2, upd=1)])], "latebody": 2},
+                 {"op": "tick", "d": 1}, {"op": "req", "rq": rq(), "ans": []}]
+        out.append({"id": "held/%05d" % i, "backend": ["mem", "mem", "fs", "fsenc"][i % 4], "opt": {}, "steps": steps, "grp": "", "spv": 0})
     return out
 
 
@@ -367,7 +423,8 @@ def concurrent(tier, seed, n=None):
                                 "ans": [ans(st=200, ccp=0, etag=0)]})
                 else:
                     lat = r.choice([0, 0, 0, 1, 2])
-                    va = ans(k="304", st=304, ccp=1, ma=50, etag=1, upd=1, lat=lat) if r.random() < 0.5 else ans(ccp=1, ma=r.choice([3, 60]), etag=2, swr=30, vary=stored["vary"], lat=lat)
+                    va = ans(k="304", st=304, ccp=1, ma=50, etag=1, upd=1, lat=lat, hop=r.choice([0, 0, 1, 2])) if r.random() < 0.5 \
+                        else ans(ccp=1, ma=r.choice([3, 60]), etag=2, swr=30, vary=stored["vary"], lat=lat, hop=r.choice([0, 0, 1, 2]))
                     par.append({"op": "req", "rq": rq(u=r.choice([0, 0, 1]), sel=[0, 0, r.choice([1, 1, 2, 3]), 0],
                                                       fl=["no-cache"] if r.random() < 0.1 else []),
                                 "ans": [va, ans(ccp=1, ma=60, etag=2, vary=stored["vary"])]})
